@@ -154,16 +154,32 @@ fn add_long_record(m: &mut Model, rng: &mut Rng) {
     let at = rng.below(k);
     let same = rng.below(m.terms.len());
     let style = if rng.chance(0.6) { Style::Tuple } else { Style::Named };
+    // used/skipped mask: random, or long runs of `_` fields around one or two used fields
+    let pattern = rng.below(6);
+    let u1 = rng.below(k);
+    let u2 = rng.below(k);
+    let all_same = rng.chance(0.5);
     let fields: Vec<Field> = (0..k)
         .map(|i| Field {
-            sym: if i == at { Sym::N(m.start) } else if rng.chance(0.7) { Sym::T(same) } else { Sym::T(rng.below(m.terms.len())) },
-            used: rng.chance(0.65),
+            sym: if i == at && !(all_same && pattern >= 3) { Sym::N(m.start) } else if all_same || rng.chance(0.7) { Sym::T(same) } else { Sym::T(rng.below(m.terms.len())) },
+            used: match pattern {
+                0..=2 => rng.chance(0.65),
+                3 => i == u1,
+                4 => i == u1 || i == u2,
+                _ => i == 0 || i == k - 1,
+            },
             name: format!("f{i}"),
         })
         .collect();
-    let is_enum = rng.chance(0.4);
+    let embeds_old_start = fields.iter().any(|f| f.sym == Sym::N(m.start));
+    let is_enum = rng.chance(0.4) || !embeds_old_start;
     let name = format!("Rec{}", m.nts.len());
-    m.nts.push(Nt { name: name.clone(), is_enum, prods: vec![Prod { name: "Only".into(), style, fields }], attrs: vec![] });
+    let mut prods = vec![Prod { name: "Only".into(), style, fields }];
+    if !embeds_old_start {
+        // keep the old grammar reachable through a second alternative
+        prods.push(Prod { name: "Old".into(), style: Style::Tuple, fields: vec![Field { sym: Sym::T(same), used: true, name: "f0".into() }, Field { sym: Sym::N(m.start), used: true, name: "f1".into() }, Field { sym: Sym::T(same), used: false, name: "f2".into() }] });
+    }
+    m.nts.push(Nt { name: name.clone(), is_enum, prods, attrs: vec![] });
     m.start = m.nts.len() - 1;
 }
 
